@@ -110,6 +110,7 @@ def build_texts(tier):
         texts += F.f_mem((3,), deltas=[0, 16], ops=("MSTORE", "MLOAD", "MSTORE8"))
         texts += F.f_mem_byte_in_word()[::2]
         texts += F.f_mem_shared_values(deltas=(0, 1, 32), tail=(None, "MLOAD"))
+        texts += F.f_mem_repeated_store(deltas=(0, 1, 32))
         texts += F.f_mem((2,), deltas=[0, 32], mixed=True)
         texts += F.f_rule_singles(ops, contexts=("consumed",))
         texts += F.consuming_singles(ops + ["SMOD", "SAR", "BYTE", "SIGNEXTEND"])
@@ -119,6 +120,7 @@ def build_texts(tier):
         texts += F.f_mem((3,), deltas=[0, 1, 32], ops=("MSTORE", "MLOAD", "MSTORE8", "KECCAK256"))[::3]
         texts += F.f_mem_byte_in_word(deltas=(0, 1, 16, 31, 32, 33))
         texts += F.f_mem_shared_values()
+        texts += F.f_mem_repeated_store()
         texts += F.f_mem((3,), deltas=[0, 32], ops=("SSTORE", "SLOAD"))
         texts += F.f_mem((2,), deltas=[0, 1, 32], mixed=True)
         texts += F.f_mem((4,), deltas=[0, 16], ops=("MSTORE", "MLOAD"))
